@@ -27,6 +27,8 @@ Hooks == {"None", "Other1", "Other2", "Agent"}
 
 VARIABLES noTrace,    \* NO_TRACE configuration (never changes)
           preSys, preThr,     \* the hooks found before the first start (never change)
+          appSys, appThr,     \* the hooks the APPLICATION last installed itself (a debugger attached while the agent
+                              \* runs with tracing disabled replaces them)
           sysTrace, thrTrace, \* sys.gettrace() of the starting thread / threading.gettrace()
           started,
           pollAlive,
@@ -39,7 +41,7 @@ VARIABLES noTrace,    \* NO_TRACE configuration (never changes)
           actedAfter, \* an application thread running the agent's trace function acted after shutdown completed
           everStarted
 
-vars == <<noTrace, preSys, preThr, sysTrace, thrTrace, started, pollAlive, sdpc, failing, sdDone, drained, pluginDown,
+vars == <<noTrace, preSys, preThr, appSys, appThr, sysTrace, thrTrace, started, pollAlive, sdpc, failing, sdDone, drained, pluginDown,
           ncalls, actedAfter, everStarted>>
 
 Steps == 1..(3 + NPlugins)     \* 1 RestoreHooks, 2 Flush, 3 StopPoll, 3+i PluginShutdown(i)
@@ -49,6 +51,7 @@ Init ==
     /\ noTrace \in BOOLEAN
     /\ preSys \in {"None", "Other1"} /\ preThr \in {"None", "Other2"}
     /\ sysTrace = preSys /\ thrTrace = preThr
+    /\ appSys = preSys /\ appThr = preThr
     /\ started = FALSE /\ pollAlive = FALSE
     /\ sdpc = 0 /\ failing = {} /\ sdDone = {} /\ drained = FALSE /\ pluginDown = {}
     /\ ncalls = 0 /\ actedAfter = FALSE /\ everStarted = FALSE
@@ -61,7 +64,7 @@ Start ==
          ELSE /\ started' = TRUE /\ pollAlive' = TRUE /\ everStarted' = TRUE
               /\ IF noTrace THEN UNCHANGED <<sysTrace, thrTrace>>
                             ELSE sysTrace' = "Agent" /\ thrTrace' = "Agent"
-    /\ UNCHANGED <<noTrace, preSys, preThr, sdpc, failing, sdDone, drained, pluginDown, actedAfter>>
+    /\ UNCHANGED <<noTrace, preSys, preThr, appSys, appThr, sdpc, failing, sdDone, drained, pluginDown, actedAfter>>
 
 (* shutdown() is called; the environment decides which of its steps will fail *)
 ShutdownBegin(f) ==
@@ -70,13 +73,13 @@ ShutdownBegin(f) ==
     /\ IF started
          THEN /\ sdpc' = 1 /\ failing' = f /\ sdDone' = {} /\ drained' = FALSE /\ pluginDown' = {}
          ELSE UNCHANGED <<sdpc, failing, sdDone, drained, pluginDown>>                 \* not started: nothing to do
-    /\ UNCHANGED <<noTrace, preSys, preThr, sysTrace, thrTrace, started, pollAlive, actedAfter, everStarted>>
+    /\ UNCHANGED <<noTrace, preSys, preThr, appSys, appThr, sysTrace, thrTrace, started, pollAlive, actedAfter, everStarted>>
 
 Effect(step) ==
     CASE step = 1 ->
            /\ IF noTrace /\ ~UnconditionalRestore
                 THEN UNCHANGED <<sysTrace, thrTrace>>
-                ELSE /\ sysTrace' = (IF noTrace THEN "None" ELSE preSys)
+                ELSE /\ sysTrace' = (IF noTrace THEN "None" ELSE preSys)      \* deviation: the saved (None) values
                      /\ thrTrace' = (IF noTrace THEN "None" ELSE preThr)
            /\ UNCHANGED <<pollAlive, drained, pluginDown>>
       [] step = 2 -> drained' = TRUE /\ UNCHANGED <<sysTrace, thrTrace, pollAlive, pluginDown>>
@@ -92,23 +95,30 @@ ShutdownStep ==
     /\ IF sdpc \in failing /\ AbortOnFailure
          THEN sdpc' = 0 /\ UNCHANGED started          \* the exception leaves shutdown(): the rest never runs
          ELSE sdpc' = sdpc + 1 /\ UNCHANGED started
-    /\ UNCHANGED <<noTrace, preSys, preThr, failing, ncalls, actedAfter, everStarted>>
+    /\ UNCHANGED <<noTrace, preSys, preThr, appSys, appThr, failing, ncalls, actedAfter, everStarted>>
 
 ShutdownMark ==
     /\ sdpc = MarkStep
     /\ started' = FALSE /\ sdpc' = 0
-    /\ UNCHANGED <<noTrace, preSys, preThr, sysTrace, thrTrace, pollAlive, failing, sdDone, drained, pluginDown, ncalls,
+    /\ UNCHANGED <<noTrace, preSys, preThr, appSys, appThr, sysTrace, thrTrace, pollAlive, failing, sdDone, drained, pluginDown, ncalls,
                    actedAfter, everStarted>>
 
 (* a thread that inherited the agent's trace function reaches a tracepoint after shutdown has completed *)
 HostEventAfter ==
     /\ everStarted /\ ~started /\ sdpc = 0 /\ ~noTrace
     /\ actedAfter' = KeepsActing
-    /\ UNCHANGED <<noTrace, preSys, preThr, sysTrace, thrTrace, started, pollAlive, sdpc, failing, sdDone, drained,
+    /\ UNCHANGED <<noTrace, preSys, preThr, appSys, appThr, sysTrace, thrTrace, started, pollAlive, sdpc, failing, sdDone, drained,
                    pluginDown, ncalls, everStarted>>
 
+(* with tracing disabled the hooks belong to the application: it may install its own while the agent runs *)
+AppSetsHooks ==
+    /\ noTrace /\ started /\ sdpc = 0 /\ appSys # "Other2"
+    /\ appSys' = "Other2" /\ appThr' = "Other1" /\ sysTrace' = "Other2" /\ thrTrace' = "Other1"
+    /\ UNCHANGED <<noTrace, preSys, preThr, started, pollAlive, sdpc, failing, sdDone, drained, pluginDown, ncalls,
+                   actedAfter, everStarted>>
+
 Next ==
-    \/ Start
+    \/ Start \/ AppSetsHooks
     \/ \E f \in SUBSET (Steps \ {1}) : ShutdownBegin(f)       \* restoring the hooks itself cannot fail
     \/ ShutdownStep \/ ShutdownMark \/ HostEventAfter
 
@@ -118,9 +128,9 @@ Spec == Init /\ [][Next]_vars
 Idle == sdpc = 0
 (* hooks installed once, and only when tracing is enabled *)
 InstalledWhenStarted == (Idle /\ started /\ ~noTrace) => (sysTrace = "Agent" /\ thrTrace = "Agent")
-NoTraceUntouched == noTrace => (sysTrace = preSys /\ thrTrace = preThr)
+NoTraceUntouched == noTrace => (sysTrace = appSys /\ thrTrace = appThr)
 (* shutdown puts back exactly what was there before start *)
-RestoredExactly == (Idle /\ ~started) => (sysTrace = preSys /\ thrTrace = preThr)
+RestoredExactly == (Idle /\ ~started) => (sysTrace = appSys /\ thrTrace = appThr)
 (* shutdown does all of its work whatever fails *)
 ShutdownCompletes ==
     (Idle /\ ~started /\ everStarted) =>
